@@ -1,6 +1,6 @@
 (* C08: every operation of the (repaired) model keeps the heap well formed and acyclic. *)
 From Coq Require Import ZArith List ListDec Arith Lia Bool.
-From SqfVerif Require Import Data.DataDefs Data.DataGraph Data.DataHeap.
+From SqfVerif Require Import Data.DataDefs Data.DataGraph Data.DataHeap Data.DataSort.
 Import ListNotations.
 
 Lemma mk_good s st ds r : Inv st -> vwf (st_heap st) r -> Good (mk s st ds r).
@@ -150,7 +150,11 @@ Proof.
     destruct (Nat.leb (length l) 1); [apply mk_good; auto; exact I|].
     destruct (sortable_nums l); [eapply upd_arr_shrink_good; eauto; [|exact I]; intros x Hx; left; apply In_sort_by in Hx; auto|].
     destruct (sortable_strs l); [eapply upd_arr_shrink_good; eauto; [|exact I]; intros x Hx; left; apply In_sort_by in Hx; auto|].
-    auto.
+    apply of_res_good; auto. intros r Er. destruct r as [l'|ds|]; auto.
+    + (* a table: the same element references in another order *)
+      destruct (sort_table_inv _ _ _ _ Er) as (r0 & tl & row0 & rows & types & _ & _ & _ & _ & _ & _ & _ & ->).
+      eapply upd_arr_shrink_good; eauto; [|exact I]. intros x Hx. left. apply In_sort_by in Hx. auto.
+    + apply mk_good; auto. exact I.
   - (* assign *)
     apply with1_good; auto. intros st1 v I1 Vv G1 E1. apply assign_result_good; auto. apply mk_good; auto.
   - (* copy *)
